@@ -241,6 +241,9 @@ class PrecipitateModel (PrecipitateBase):
                 self.PSDXalpha[p] = np.zeros((self.PBM[p].bins + 1,1))
                 self.PSDXbeta[p] = np.zeros((self.PBM[p].bins + 1,1))
 
+        #Temperature and planar equilibrium compositions of the table that is now in use (see _growthRateBinary)
+        self._lookupTemperature = T
+        self._lookupXEq = (xEqAlpha, xEqBeta)
         return xEqAlpha, xEqBeta
     
     def _setupAspectRatio(self):
@@ -534,14 +537,14 @@ class PrecipitateModel (PrecipitateBase):
         #Update equilibrium interfacial compositions
         #This will be override if _createLookupBinary is called
         T = Y.temperature[0]
-        self.dTemp += T - self.pData.temperature[self.pData.n]
+        #Temperature change since the lookup table was built (not accumulated per call: RK4 calls this at every stage)
+        self.dTemp = T - self._lookupTemperature
         if np.abs(self.dTemp) > self.constraints.maxTempChange:
-            xEqAlpha, xEqBeta = self._createLookupBinary(T)
+            self._createLookupBinary(T)
             self.dTemp = 0
-        else:
-            xEqAlpha, xEqBeta = np.array([self.pData.xEqAlpha[self.pData.n]]), np.array([self.pData.xEqBeta[self.pData.n]])
-        Y.xEqAlpha = xEqAlpha
-        Y.xEqBeta = xEqBeta
+        #Record the planar equilibrium of the table in use (row n may predate a rebuild made at an RK4 stage)
+        Y.xEqAlpha = np.array(self._lookupXEq[0])
+        Y.xEqBeta = np.array(self._lookupXEq[1])
         
         return [self._singleGrowthBinary(p, Y) for p in range(len(self.phases))], Y
 
@@ -654,7 +657,7 @@ class PrecipitateModel (PrecipitateBase):
                     else:
                         self.PSDXalpha[p] = np.concatenate((self.PSDXalpha[p], np.zeros((self.PBM[p].bins+1 - len(self.PSDXalpha[p]),1))))
                         self.PSDXbeta[p] = np.concatenate((self.PSDXbeta[p], np.zeros((self.PBM[p].bins+1 - len(self.PSDXbeta[p]),1))))
-                        xAlphaNew, xBetaNew = self.therm.getInterfacialComposition(self.pData.temperature[self.pData.n], self.particleGibbs(self.PBM[p].PSDbounds[addedIndices:], self.precipitateParameters[p].phase), precPhase=self.precipitateParameters[p].phase)
+                        xAlphaNew, xBetaNew = self.therm.getInterfacialComposition(self._lookupTemperature, self.particleGibbs(self.PBM[p].PSDbounds[addedIndices:], self.precipitateParameters[p].phase), precPhase=self.precipitateParameters[p].phase)
                         xAlphaNew, xBetaNew = np.atleast_1d(xAlphaNew).astype(np.float64), np.atleast_1d(xBetaNew).astype(np.float64)
                         #The new size classes are larger than any existing one, so if equilibrium could not be found for them (-1),
                         #use the values of the largest existing size class rather than treating them as unstable
